@@ -512,7 +512,9 @@ theorem clone_fields_fresh :
     Gen.cloneFields.all (fun f => !f.2.2.2.2.1 || f.2.2.2.2.2 == "fresh" ||
       (f.2.2.2.2.2 == "unset" && notCloned.contains (f.2.1, f.2.2.1))) = true := by decide
 
-/-- the structs and fields are the ones the model transcribes (a new field shows up here) -/
+/-- the structs and fields are the ones the model transcribes (a new field shows up here);
+    `runtime.halting` (fix fd4edef: an interrupt function panicked and the panic is on its way out of Run) is a
+    bool the clone leaves at false: a copy is at rest -/
 theorem clone_fields_expected : Gen.cloneFields.map (fun f => (f.2.1, f.2.2.1)) =
     [("object", "value"), ("object", "runtime"), ("object", "objectClass"), ("object", "prototype"), ("object", "property"),
      ("object", "class"), ("object", "propertyOrder"), ("object", "extensible"),
@@ -526,7 +528,7 @@ theorem clone_fields_expected : Gen.cloneFields.map (fun f => (f.2.1, f.2.2.1)) 
      ("dclProperty", "value"), ("dclProperty", "mutable"), ("dclProperty", "deletable"), ("dclProperty", "readable"),
      ("Value", "value"), ("Value", "kind"),
      ("runtime", "global"), ("runtime", "globalObject"), ("runtime", "globalStash"), ("runtime", "scope"), ("runtime", "otto"),
-     ("runtime", "eval"), ("runtime", "debugger"), ("runtime", "random"), ("runtime", "labels"), ("runtime", "stackLimit"),
+     ("runtime", "eval"), ("runtime", "debugger"), ("runtime", "random"), ("runtime", "labels"), ("runtime", "halting"), ("runtime", "stackLimit"),
      ("runtime", "traceLimit"), ("runtime", "lck"), ("Otto", "Interrupt"), ("Otto", "runtime")] := by decide
 
 /-- **C17.payload_cases_fresh** — every payload type objectClone's switch handles either holds no
